@@ -119,6 +119,8 @@ def jobs(tier, prop):
                 continue
             if not any(k in 'PUC' for k in seq):
                 continue
+            if n == 5 and (sum(1 for k in seq if k == 'S') > 2 or sum(1 for k in seq if k == 'A') > 2):
+                continue     # thorough: at most two events and two clock advances per 5-op sequence (CPU budget)
             sub = make_sub('c07:' + ''.join(seq), ['A'] + list(seq) + ['D'])
             if sum(1 for k in seq if k == 'S') >= 3:
                 # three events: equal priorities, so that only times, assets and weights order them
@@ -147,10 +149,12 @@ def jobs(tier, prop):
             subs.append(sub)
     else:
         core = ['S', 'F', 'X', 'P', 'U', 'C', 'T', 'R', 'Ns', 'Np', 'Nc']
-        n = 2 if tier == 'quick' else 3
-        for seq in itertools.product(core, repeat=n):
-            if not _valid(seq):
-                continue
+        # quick: every 2-op sequence over the 11 kinds; thorough: those plus every 3-op sequence over 7 kinds
+        seqs = [s_ for s_ in itertools.product(core, repeat=2) if _valid(s_)]
+        if tier == 'thorough':
+            core3 = ['S', 'F', 'P', 'U', 'T', 'R', 'Ns']
+            seqs += [s_ for s_ in itertools.product(core3, repeat=3) if _valid(s_) and s_[0] in ('S', 'F', 'Ns')]
+        for seq in seqs:
             subs.append(make_sub('c01:' + '.'.join(seq), ['A'] + list(seq) + ['R']))
         picked = [['S', 'S', 'S', 'R'], ['S', 'F', 'S', 'T', 'T', 'T'], ['S', 'S', 'R', 'S', 'R'], ['S', 'Nx', 'R'],
                   ['S', 'Nu', 'P', 'R', 'R'], ['S', 'P', 'A', 'S', 'P', 'A', 'U', 'S', 'R'], ['S', 'P', 'A', 'S', 'P', 'A', 'U', 'T', 'T'],
@@ -203,9 +207,9 @@ def bounds_text(tier, prop):
         n = 4 if tier == 'quick' else 5
         return (f'after advancing the clock by a symbolic d>=1: every sequence of {n} operations from '
                 f'{{schedule, pause, unpause, cancel, advance(d>=1)}} that starts with a schedule and contains a '
-                f'pause/unpause/cancel, followed by unpause-all and a drain; plus hand-picked sequences of 8-11 operations; '
+                f'pause/unpause/cancel (5-op sequences: at most two schedules and two advances), followed by unpause-all and a drain; plus hand-picked sequences of 8-11 operations; '
                 f'3 asset ids, assets/delays/priorities/durations symbolic, tie-break weights free')
-    n = 2 if tier == 'quick' else 3
+    n = '2' if tier == 'quick' else '2 (and of 3 over {schedule, fractional schedule, pause, unpause, step, run, parent-schedules} starting with a schedule)'
     return (f'after advancing the clock by a symbolic d>=1: every sequence of {n} operations from {{schedule (integer or '
             f'fractional priority), schedule-in-the-past, pause, unpause, cancel, step, run(d), parent events whose action '
             f'schedules / pauses / cancels}} followed by run(d); plus hand-picked sequences of 3-7 operations incl. '
